@@ -647,6 +647,10 @@ CORPUS = {
                                    (NS, [DPOP, P(2), enc_key('k'), []]), (NS, [DSET, P(0), 0, enc_key('b'), V(2)])),
   'rebind-insertion-and-negative-index': case([[1, [2], {'a': 1}]],
                                               (NS, [REBIND, P(0), [[[[1, 1]], V(7)], [[[1, -1]], V(8)], [[[1, 2]], INS(V(None))]]])),
+  'reverse-sort-on-list-holding-missing': case([[1, {'a': 1}, 3, [4]]],
+      (sc(notify=[False]), [LSET, P(0), 0, V('MISSING')]), (NS, [LREVERSE, P(0)]),
+      (sc(notify=[False]), [LSET, P(0), 1, V('MISSING')]), (sc(notify=[False]), [LREVERSE, P(0)]), (NS, [LSORT, P(0), [2, 1, 0], 0]),
+      (sc(notify=[False]), [LSET, P(0), 0, V('MISSING')]), (NS, [LREVERSE, P(0)]), (NS, [LAPPEND, P(0), V(9)])),
   'missing-in-list': case([[1, 2, 3]], (sc(notify=[False]), [LSET, P(0), 1, V('MISSING')]), (NS, [CLONE, P(0), 0]), (NS, [LAPPEND, P(0), V(4)])),
 }
 
